@@ -282,3 +282,33 @@ func genOrder(tier string, seed uint64) {
 		}
 	}
 }
+
+func genAutogen(tier string, seed uint64) {
+	emitDefs()
+	r := &rng{s: seed}
+	for _, fam := range shapeFamilies {
+		for _, t := range fam.all {
+			for _, m := range []string{"default", "strings", "rfc7049"} {
+				emit("autogen %d %s", tid(t), m)
+			}
+		}
+	}
+	for _, v := range []interface{}{Inner{}, WithPtr{}, Emb{}, EmbPtr{}, Rec{}, Tagged{}, OmitAll{}, Nums{}, HasShape{}} {
+		for _, m := range []string{"default", "strings", "rfc7049"} {
+			emit("autogen %d %s", tid(reflect.TypeOf(v)), m)
+		}
+	}
+	// values of the generated types through their autogenerated mappings, embedded pointers nil and non-nil
+	n := 3
+	if tier == "thorough" {
+		n = 40
+	}
+	for k, fam := range shapeFamilies {
+		for i := 0; i < n; i++ {
+			for _, f := range []string{"cbor", "json"} {
+				v := genValue(r, fam.root, genOpts{depth: 4, jsonSafe: f == "json", roundtrip: true, cbor: f == "cbor"})
+				emit("roundtrip %s %d %d nil - %s", f, 100+k, tid(fam.root), v)
+			}
+		}
+	}
+}
